@@ -245,6 +245,9 @@ func c13Record(tier string, seed int64, emit func(interface{})) {
 		for i := range b {
 			b[i] = byte(33 + rng.Intn(94))
 		}
+		if rng.Intn(6) == 0 { // printable characters outside ASCII
+			return string(b) + []string{"é", "µ", "日本", "Ω", "ß", "–"}[rng.Intn(6)]
+		}
 		return string(b)
 	}
 	letters := func(m int) string {
@@ -254,6 +257,7 @@ func c13Record(tier string, seed int64, emit func(interface{})) {
 		}
 		return string(b)
 	}
+	var pendingRT []func()
 	for i := 0; i < n; i++ {
 		k := 1 + rng.Intn(maxRecs)
 		if i < nBig {
@@ -286,8 +290,26 @@ func c13Record(tier string, seed int64, emit func(interface{})) {
 			fasta.Write(recs, p)
 			text, _ = os.ReadFile(p)
 		}
-		got, closes, pm := readVia(via, text, cap, rng)
-		emit(map[string]interface{}{"k": "rt", "via": via, "cap": cap, "written": written, "got": got, "closes": closes, "panic": pm != "", "msg": pm})
+		// the text is read only after the NEXT two record lists have been built: what Build returned is a value of its
+		// own, whatever later Build calls do (the big inputs are read at once: holding them costs memory, not insight)
+		{
+			via, cap, text, written := via, cap, text, written
+			observe := func() {
+				got, closes, pm := readVia(via, text, cap, rng)
+				emit(map[string]interface{}{"k": "rt", "via": via, "cap": cap, "written": written, "got": got, "closes": closes, "panic": pm != "", "msg": pm})
+			}
+			if len(text) > 1<<20 {
+				observe()
+			} else {
+				pendingRT = append(pendingRT, observe)
+			}
+			if len(pendingRT) >= 3 || i == n-1 {
+				for _, f := range pendingRT {
+					f()
+				}
+				pendingRT = nil
+			}
+		}
 		// (b) the harness's own writer: arbitrary wrapping, blank / comment lines, CRLF
 		if i >= nBig || tier == "thorough" {
 			var lines []string
